@@ -26,7 +26,7 @@ REQUIRED_REACH = ["images.Images.serialize", "images.Images.deserialize", "image
 REQUIRED_MONITORS = ["M1-text-equals-description", "M3-reload-equals-description", "M4-redump-identical", "M5-file-roundtrip"]
 FORCES = ["size-large", "volume-null", "volume-set", "implant-null", "implant-set", "checksums-several", "unified",
           "mtime-zero", "subvariant-empty", "shared-object", "many-per-cell", "identity-equal-same-checksums",
-          "empty-manifest", "same-path-other-cell", "near-equal-paths"]
+          "empty-manifest", "same-path-other-cell", "near-equal-paths", "arches-whole-table"]
 CLASS_FLOORS = dict((c, 5) for c in FORCES)
 CLASS_FLOORS.update(dict(("type-" + t, 3) for t in domains.IMAGE_TYPES))
 CLASS_FLOORS.update(dict(("format-" + t, 3) for t in domains.IMAGE_FORMATS))
@@ -35,8 +35,8 @@ CLASS_FLOORS.update({"several-variants": 5, "several-arches": 5, "unified-additi
 
 def plan(tier):
     if tier == "thorough":
-        return {"shards": 16, "params": {"cases": 30000, "budget_s": 1500}, "timeout_s": 3000}
-    return {"shards": 4, "params": {"cases": 1200, "budget_s": 300}, "timeout_s": 900}
+        return {"shards": 16, "params": {"cases": 30000, "budget_s": 1500}, "timeout_s": 3000, "ascii_locale_shards": [5, 11]}
+    return {"shards": 4, "ascii_locale_shards": [3], "params": {"cases": 1200, "budget_s": 300}, "timeout_s": 900}
 
 
 def _pm():
